@@ -1,7 +1,202 @@
-From Coq Require Import ZArith List Bool Lia.
+(* Proofs about model/Multipart.v (C08). *)
+From Coq Require Import ZArith List Bool Lia String.
 Require Import PW.lib.Val PW.lib.ValFacts PW.model.Multipart.
 Import ListNotations.
+Open Scope list_scope.
 Open Scope Z_scope.
+
+(* ------------------------------------------------------------------ *)
+(* lists *)
 
 Lemma rv_rev (l : list Z) : rv l = rev l.
 Proof. unfold rv. rewrite rev_append_rev, app_nil_r. reflexivity. Qed.
+
+Lemma len_nil {A} : len (@nil A) = 0.
+Proof. reflexivity. Qed.
+Lemma len_cons {A} (x : A) l : len (x :: l) = 1 + len l.
+Proof. unfold len. cbn [List.length]. lia. Qed.
+Lemma len_app {A} (a b : list A) : len (a ++ b) = len a + len b.
+Proof. unfold len. rewrite app_length. lia. Qed.
+Lemma len_nonneg {A} (l : list A) : 0 <= len l.
+Proof. unfold len. lia. Qed.
+Lemma len_zero_nil {A} (l : list A) : len l = 0 -> l = [].
+Proof. destruct l; [reflexivity|]. rewrite len_cons. pose proof (len_nonneg l). lia. Qed.
+
+Lemma is_nil_false {A} (l : list A) : l <> [] -> is_nil l = false.
+Proof. destruct l; [congruence | reflexivity]. Qed.
+Lemma is_nil_true {A} (l : list A) : is_nil l = true -> l = [].
+Proof. destruct l; [reflexivity | discriminate]. Qed.
+
+Lemma prefixb_app p s : prefixb p (p ++ s) = true.
+Proof.
+  induction p as [|x p IH]; [reflexivity|].
+  cbn [prefixb app]. rewrite Z.eqb_refl, IH. reflexivity.
+Qed.
+
+Lemma prefixb_spec p : forall s, prefixb p s = true -> exists t, s = p ++ t.
+Proof.
+  induction p as [|x p IH]; intros s H.
+  - exists s. reflexivity.
+  - destruct s as [|y s]; [discriminate|]. cbn [prefixb] in H.
+    apply andb_true_iff in H as [H1 H2]. apply Z.eqb_eq in H1. subst y.
+    destruct (IH _ H2) as [t ->]. exists t. reflexivity.
+Qed.
+
+(* a ++ m = p ++ t with no element of p equal to the head of m *)
+Lemma app_prefix_clean (a m p t : list Z) (x : Z) :
+  a ++ m = p ++ t -> ~ In x p -> (m = [] \/ exists m', m = x :: m') ->
+  exists k, a = p ++ k.
+Proof.
+  revert a. induction p as [|y p IH]; intros a H Hn Hm.
+  - exists a. reflexivity.
+  - destruct a as [|z a].
+    + cbn [app] in H. destruct Hm as [-> | [m' ->]]; [discriminate|].
+      injection H as -> _. exfalso. apply Hn. left. reflexivity.
+    + cbn [app] in H. injection H as -> H.
+      destruct (IH a H) as [k ->]; [intros Hi; apply Hn; right; exact Hi | exact Hm |].
+      exists k. reflexivity.
+Qed.
+
+Definition occurs (p s : list Z) : Prop := exists x y, s = x ++ p ++ y.
+Definition ends_lf (l : bytes) : Prop := exists z, l = z ++ [10].
+Definition no_inner_crlf (l : bytes) : Prop :=
+  forall x y, l = x ++ [13; 10] ++ y -> y = [].
+
+(* where a piece without inner CRLF that starts in c2 ++ CRLF ++ z ends *)
+Lemma piece_cases (l u' c2 z : bytes) :
+  l ++ u' = c2 ++ [13; 10] ++ z -> no_inner_crlf l ->
+  exists l1 c2b m, l = l1 ++ m /\ c2 = l1 ++ c2b /\
+    ((m = [] /\ u' = c2b ++ [13; 10] ++ z) \/
+     (m = [13] /\ c2b = [] /\ u' = 10 :: z) \/
+     (m = [13; 10] /\ c2b = [] /\ u' = z)).
+Proof.
+  intros H Hn. apply app_eq_app in H. destruct H as [k [[H1 H2] | [H1 H2]]].
+  - (* c2 = l ++ k *)
+    exists l, k, []. rewrite app_nil_r.
+    split; [reflexivity|]. split; [exact H1|]. left. split; [reflexivity|exact H2].
+  - (* l = c2 ++ k, 13::10::z = k ++ u' *)
+    destruct k as [|k1 k].
+    + exists l, [], []. rewrite !app_nil_r. cbn [app] in H2.
+      rewrite app_nil_r in H1. subst c2.
+      split; [reflexivity|]. split; [reflexivity|]. left.
+      split; [reflexivity|]. symmetry. exact H2.
+    + cbn [app] in H2. injection H2 as <- H2. destruct k as [|k2 k].
+      * cbn [app] in H2. exists c2, [], [13]. rewrite app_nil_r.
+        split; [exact H1|]. split; [reflexivity|]. right. left.
+        split; [reflexivity|]. split; [reflexivity|]. symmetry. exact H2.
+      * cbn [app] in H2. injection H2 as <- H2.
+        assert (k = []) by (apply (Hn c2 k); exact H1). subst k.
+        cbn [app] in H2. exists c2, [], [13; 10]. rewrite app_nil_r.
+        split; [exact H1|]. split; [reflexivity|]. right. right.
+        split; [reflexivity|]. split; [reflexivity|]. symmetry. exact H2.
+Qed.
+
+(* ------------------------------------------------------------------ *)
+(* strip *)
+
+Lemma lstrip_suffix ws s : exists t, s = t ++ lstrip_by ws s.
+Proof.
+  induction s as [|c s [t IH]].
+  - exists []. reflexivity.
+  - cbn [lstrip_by]. destruct (ws c).
+    + exists (c :: t). cbn [app]. rewrite <- IH. reflexivity.
+    + exists []. reflexivity.
+Qed.
+
+Lemma lstrip_app_all ws a b :
+  forallb ws a = true -> lstrip_by ws (a ++ b) = lstrip_by ws b.
+Proof.
+  induction a as [|c a IH]; intros H; [reflexivity|].
+  cbn [forallb] in H. apply andb_true_iff in H as [H1 H2].
+  cbn [app lstrip_by]. rewrite H1. apply IH. exact H2.
+Qed.
+
+Lemma lstrip_all ws a : forallb ws a = true -> lstrip_by ws a = [].
+Proof.
+  intros H. rewrite <- (app_nil_r a). rewrite lstrip_app_all by exact H.
+  reflexivity.
+Qed.
+
+Lemma rstrip_by_rev ws l : rstrip_by ws l = rev (lstrip_by ws (rev l)).
+Proof. unfold rstrip_by. rewrite !rv_rev. reflexivity. Qed.
+
+Lemma rstrip_prefix ws l : exists t, l = rstrip_by ws l ++ t.
+Proof.
+  rewrite rstrip_by_rev. destruct (lstrip_suffix ws (rev l)) as [t H].
+  exists (rev t). rewrite <- rev_app_distr, <- H, rev_involutive. reflexivity.
+Qed.
+
+Lemma forallb_rev {A} (f : A -> bool) l : forallb f (rev l) = forallb f l.
+Proof.
+  induction l as [|x l IH]; [reflexivity|].
+  cbn [rev forallb]. rewrite forallb_app, IH. cbn [forallb].
+  rewrite andb_true_r. apply andb_comm.
+Qed.
+
+(* x ends with a non-blank character, w is all blank *)
+Lemma rstrip_app_ws ws x c w :
+  ws c = false -> forallb ws w = true ->
+  rstrip_by ws (x ++ [c] ++ w) = x ++ [c].
+Proof.
+  intros Hc Hw. rewrite rstrip_by_rev, !rev_app_distr.
+  rewrite <- app_assoc. rewrite lstrip_app_all by (rewrite forallb_rev; exact Hw).
+  cbn [rev app lstrip_by]. rewrite Hc. cbn [rev].
+  rewrite rev_involutive. reflexivity.
+Qed.
+
+Lemma strip_nil_all l : forallb is_ws l = true -> strip l = [].
+Proof.
+  intros H. unfold strip, strip_by. rewrite rstrip_by_rev.
+  rewrite lstrip_all by (rewrite forallb_rev; exact H). reflexivity.
+Qed.
+
+(* ------------------------------------------------------------------ *)
+(* the endswith ladder *)
+
+Lemma split_end_crlf x : split_end (x ++ [13; 10]) = (x, [13; 10], true).
+Proof.
+  unfold split_end. rewrite rv_rev, rev_app_distr. cbn [rev app].
+  rewrite !Z.eqb_refl. rewrite rv_rev, rev_involutive. reflexivity.
+Qed.
+
+Lemma split_end_cr x : split_end (x ++ [13]) = (x, [13], false).
+Proof.
+  unfold split_end. rewrite rv_rev, rev_app_distr. cbn [rev app].
+  replace (13 =? 10) with false by reflexivity. rewrite Z.eqb_refl.
+  rewrite rv_rev, rev_involutive. reflexivity.
+Qed.
+
+Lemma split_end_spec line body d lf :
+  split_end line = (body, d, lf) ->
+  line = body ++ d /\ (lf = true -> ends_lf line) /\
+  (d = [13] -> exists z, line = z ++ [13]).
+Proof.
+  unfold split_end. rewrite rv_rev.
+  assert (Hl : line = rev (rev line)) by (rewrite rev_involutive; reflexivity).
+  destruct (rev line) as [|x r] eqn:E.
+  - intros H. injection H as <- <- <-. rewrite app_nil_r.
+    repeat split; intros; discriminate.
+  - cbn [rev] in Hl. destruct (x =? 10) eqn:E10.
+    + apply Z.eqb_eq in E10. subst x. destruct r as [|y r'].
+      * intros H. injection H as <- <- <-. cbn [rev app] in Hl.
+        repeat split; auto.
+        -- intros _. exists []. exact Hl.
+        -- discriminate.
+      * destruct (y =? 13) eqn:E13.
+        -- apply Z.eqb_eq in E13. subst y. intros H. injection H as <- <- <-.
+           rewrite rv_rev. cbn [rev] in Hl. rewrite <- app_assoc in Hl.
+           cbn [app] in Hl. repeat split; auto.
+           ++ intros _. exists (rev r' ++ [13]). rewrite <- app_assoc. exact Hl.
+           ++ discriminate.
+        -- intros H. injection H as <- <- <-. rewrite rv_rev.
+           repeat split; auto.
+           ++ intros _. exists (rev (y :: r')). exact Hl.
+           ++ discriminate.
+    + destruct (x =? 13) eqn:E13.
+      * apply Z.eqb_eq in E13. subst x. intros H. injection H as <- <- <-.
+        rewrite rv_rev. repeat split; auto.
+        -- discriminate.
+        -- intros _. exists (rev r). exact Hl.
+      * intros H. injection H as <- <- <-. rewrite app_nil_r.
+        repeat split; intros; discriminate.
+Qed.
